@@ -24,10 +24,12 @@ import (
 	stdx509 "crypto/x509"
 	"encoding/base64"
 	"encoding/json"
+	"errors"
 	"flag"
 	"fmt"
 	"io"
 	"strings"
+	"sync/atomic"
 	"testing"
 	"time"
 
@@ -81,10 +83,14 @@ type step struct {
 	otherForm bool // through the other root-included / root-omitted form
 	seqBefore bool // the backend integrates its queue before this submission
 	sibling   bool // a different precertificate with the same de-poisoned TBSCertificate (fresh entry)
+	signFail  bool // the log's signer refuses to sign during this submission (HSM hiccup): no 200, no SCT record, later submissions unaffected
 }
 
 func (s step) String() string {
 	var p []string
+	if s.signFail {
+		p = append(p, "signer-refuses")
+	}
 	if s.seqBefore {
 		p = append(p, "sequence")
 	}
@@ -110,7 +116,7 @@ func histLabel(h []step) string {
 // histories returns every history of exactly `depth` submissions (prefixes are
 // checked on the way: every submission of a history is judged).
 func histories(depth int) [][]step {
-	al := []step{{false, false, false}, {true, false, false}, {false, true, false}, {true, true, false}}
+	al := []step{{}, {otherForm: true}, {seqBefore: true}, {otherForm: true, seqBefore: true}}
 	out := [][]step{{}}
 	for d := 1; d < depth; d++ {
 		var next [][]step
@@ -170,14 +176,28 @@ type caseDesc struct {
 }
 
 type job struct {
-	s     *shape
-	form  int
-	lk    *pki.Key
-	clk   int
-	hist  []step
-	hook  *hookT
-	wrong bool // post to the endpoint of the other entry kind
-	phase string
+	s         *shape
+	form      int
+	lk        *pki.Key
+	clk       int
+	hist      []step
+	hook      *hookT
+	wrong     bool // post to the endpoint of the other entry kind
+	phase     string
+	failFirst bool // the signer refuses during the first submission of the history
+}
+
+// flakySigner is the log key behind a switch.
+type flakySigner struct {
+	crypto.Signer
+	fail *atomic.Bool
+}
+
+func (f flakySigner) Sign(rand io.Reader, digest []byte, opts crypto.SignerOpts) ([]byte, error) {
+	if f.fail.Load() {
+		return nil, errors.New("signer unavailable (injected)")
+	}
+	return f.Signer.Sign(rand, digest, opts)
 }
 
 type checker struct {
@@ -280,7 +300,8 @@ func supported(k *pki.Key) bool { return k.Kind == "p256" || k.Kind == "rsa2048"
 func (c *checker) run(j job) {
 	be := reflog.New(logID)
 	clk := &fe.Clock{T: clocks[j.clk].t}
-	f, err := fe.New(fe.Config{LogID: logID, Prefix: "log", Roots: [][]byte{j.s.h.root().DER}, Signer: j.lk.Priv, Client: be, Clock: clk})
+	signerDown := &atomic.Bool{}
+	f, err := fe.New(fe.Config{LogID: logID, Prefix: "log", Roots: [][]byte{j.s.h.root().DER}, Signer: flakySigner{j.lk.Priv, signerDown}, Client: be, Clock: clk})
 	if err != nil {
 		c.r.Violation("harness: front end cannot be built", err.Error(), j.s.label())
 		return
@@ -356,7 +377,10 @@ func (c *checker) run(j job) {
 
 		c.r.Eval(1)
 		var rsp fe.Resp
+		signFail := st.signFail || (i == 0 && j.failFirst)
+		signerDown.Store(signFail)
 		pan, msg, stack := enum.Catch(func() { rsp, _ = f.AddChain(sh.pre() != j.wrong, chain) })
+		signerDown.Store(false)
 		jj := j
 		jj.s = sh
 		cd := func(exp, got string) caseDesc { return c.desc(jj, i, chain, exp, got) }
@@ -376,6 +400,15 @@ func (c *checker) run(j job) {
 			if len(issued) != 0 {
 				c.r.Violation("issue-sct: RequestLog.IssueSCT called although the answer is not 200",
 					fmt.Sprintf("HTTP %d (%s) but IssueSCT was called %d time(s)", rsp.Status, body, len(issued)), cd("no IssueSCT", fmt.Sprintf("%d calls", len(issued))))
+			}
+			if signFail {
+				// the leaf reached the backend before signing was attempted: it is stored with this request's time
+				c.r.Nontrivial(fmt.Sprintf("signfail|%d|%d|%s|%s|%d", sh.id, form, j.lk.Name, histLabel(j.hist), i))
+				id0 := sha256.Sum256(sh.leaf.DER)
+				if _, dup := stored[id0]; !dup && len(queued) == 1 {
+					stored[id0] = reqMS
+				}
+				continue
 			}
 			expectFail := j.wrong || (j.hook != nil && j.hook.expect != 200)
 			switch {
@@ -666,6 +699,20 @@ func TestCheck(t *testing.T) {
 		}
 	}
 	nH := len(jobs) - nS
+	// ---- phase F: the signer refuses during one submission of a history; the others are judged as ever
+	for _, s := range w.shapes {
+		if !reduced(s, th) || s.val != "utc" {
+			continue
+		}
+		for _, lk := range logKeys {
+			if !supported(lk) {
+				continue
+			}
+			jobs = append(jobs, job{s: s, form: 0, lk: lk, clk: 0, hist: []step{{}, {otherForm: true}}, failFirst: true, phase: "F"},
+				job{s: s, form: 1, lk: lk, clk: 0, hist: []step{{signFail: true}, {}}, phase: "F"},
+				job{s: s, form: 0, lk: lk, clk: 0, hist: []step{{seqBefore: true, signFail: true}, {}}, phase: "F"})
+		}
+	}
 	// ---- phase K: the backend echoes a different stored leaf / fails; phase N: wrong endpoint
 	for _, s := range red {
 		for form := 0; form < 2; form++ {
